@@ -220,7 +220,7 @@ Fixpoint denote (e : aexpr) : dres :=
   end.
 
 (* rendering for the kernel lane *)
-Open Scope string_scope.
+Local Open Scope string_scope.
 Definition show_num (n : num) : string :=
   match n with
   | NInt z => "I:" ++ show_Z z
